@@ -5,10 +5,12 @@ Response direction: WSGI app double -> Responder.service() -> bytes -> Responden
 
 Message *shapes* (method, path spelling, header set, body kind, response framing, status)
 are selectors (`sym.choice`); *sizes* (body length, the two cut points that split a
-response body into the pieces the app yields) are symbolic integers.  They are realised
-where the code under test formats or slices with them (`str(len(body))`, `body[:k]`), so the
-engine enumerates them branch by branch and proves the bounded space exhausted; each path
-is then a concrete run of the real code.
+response body into the pieces the app yields) are symbolic integers constrained by
+`c1 <= c2`; the solver enumerates the feasible assignments and proves the bounded space
+exhausted.  Sizes are realised explicitly before the round trip (the code formats them with
+`str(len(body))` and slices with them; CrossHair would otherwise build z3 string terms for
+`str(n)`: measured 78 ms/query, no exhaustion), and the round trip itself then runs as a
+concrete execution of the real code (`run_concrete`, untraced).
 
 Oracles (exactly the statement): server sees the same method / path / query arguments /
 headers (case-insensitive names) / body, and the WSGI environ is consistent with them;
@@ -477,8 +479,8 @@ def obligations(tier):
     advs = ADV_Q if quick else list(range(len(ADV)))
     methods = ["GET", "HEAD", "PUT", "POST", "DELETE", "post"] if quick else METHODS
     maxlen = 4 if quick else 12
-    rmax = 5 if quick else len(LENS) - 1
-    nstatus = 5 if quick else len(STATUSES)
+    rmax = 4 if quick else len(LENS) - 1
+    nstatus = 4 if quick else len(STATUSES)
     budget = 240 if quick else 900
     out = []
     b_line = dict(methods=methods, paths=[PATHS[i][0] for i in paths], adversarial_values=[ADV[i] for i in advs])
